@@ -54,8 +54,21 @@ Definition delay_kept (a : action) (prev cur : sobs) : bool :=
                          end
                     else true) (so_queues prev).
 
+(* a task that waits behind the head has not been executed and so not merged with anything: it
+   carries one context and the failure policy its binding declares (a task allows failure iff its
+   binding does; an onStartup task never does) *)
+Definition ctx_policy (cfg : config) (c : ctx) : bool :=
+  match c_kind c with KStartup => false | _ => binding_allow cfg (c_binding c) end.
+Definition waiting_task_ok (cfg : config) (t : task) : bool :=
+  match t_type t with
+  | HookRun => match t_ctxs t with [c] => Bool.eqb (t_allow t) (ctx_policy cfg c) | _ => false end
+  | _ => true
+  end.
+Definition waiting_tasks_ok (cfg : config) (o : sobs) : bool :=
+  forallb (fun q => forallb (waiting_task_ok cfg) (tl (qo_items q))) (so_queues o).
+
 Definition step_ok (cfg : config) (stopped : bool) (a : action) (prev cur : sobs) : bool :=
-  negb (so_bad cur) && (stopped || delay_kept a prev cur) &&
+  negb (so_bad cur) && (stopped || (delay_kept a prev cur && waiting_tasks_ok cfg cur)) &&
   match a with
   | FinishWait q =>
       if running_in q prev && negb stopped then
